@@ -217,6 +217,14 @@ pub fn run_c07(ctx: &Ctx) -> Result<()> {
 	std::fs::create_dir_all(&sub)?; std::fs::create_dir_all(&sib)?;
 	let canary_out = "CANARY-OUTSIDE-ROOT-7f3a"; let canary_sib = "CANARY-SIBLING-91bc";
 	std::fs::write(base.join("secret.txt"), canary_out)?; std::fs::write(sib.join("secret.txt"), canary_sib)?;
+	// files outside the root that exist in precompressed form only (the server also looks for <name>.br / <name>.gz)
+	let canary_pre = "CANARY-PRECOMPRESSED-OUTSIDE-55e1";
+	let brz = |t: &str| compress(Blob::from(t.as_bytes().to_vec()), &TileCompression::Brotli).unwrap().into_vec();
+	let gzz = |t: &str| compress(Blob::from(t.as_bytes().to_vec()), &TileCompression::Gzip).unwrap().into_vec();
+	std::fs::write(base.join("keys.json.br"), brz(&format!("{{\"k\":\"{canary_pre}\"}}")))?; std::fs::write(base.join("keys2.json.gz"), gzz(canary_pre))?;
+	std::fs::write(base.join("index.html.br"), brz(&format!("<html>{canary_pre}</html>")))?; std::fs::write(sib.join("only.txt.gz"), gzz(canary_pre))?;
+	// ... and one inside the root (positive control)
+	std::fs::write(root.join("pre.txt.br"), brz("precompressed inside"))?; std::fs::write(sub.join("pre2.txt.gz"), gzz("precompressed inside"))?;
 	std::fs::write(root.join("index.html"), "<html>root index</html>")?;
 	std::fs::write(root.join("file.txt"), "inside file")?;
 	std::fs::write(sub.join("index.html"), "<html>sub index</html>")?;
@@ -239,14 +247,15 @@ pub fn run_c07(ctx: &Ctx) -> Result<()> {
 		("tar-prefix", vec!["-s".into(), format!("[/assets/]{}", tarp.to_str().unwrap())]),
 	];
 	let abs = base.to_str().unwrap().trim_start_matches('/').to_string();
-	let segs: Vec<String> = vec!["sub".into(), "file.txt".into(), ".".into(), "..".into(), "".into(), "%2e%2e".into(), "%2f".into(), "secret.txt".into(), "www-private".into(), "..%2f".into(), abs.clone()];
+	let segs: Vec<String> = vec!["sub".into(), "file.txt".into(), ".".into(), "..".into(), "".into(), "%2e%2e".into(), "%2f".into(), "secret.txt".into(), "www-private".into(), "..%2f".into(), abs.clone(), "keys.json".into(), "only.txt".into()];
 	let mut rng = Rng::new(ctx.seed ^ 0x07);
 	for (name, mut a) in configs {
 		a.push(format!("[all]{}", base.join("all.vpl").to_str().unwrap()));
 		let srv = start_server(&a)?;
 		let prefix = if name.ends_with("prefix") { "/assets" } else { "" };
 		// positive controls: files inside are served
-		for (t, want) in [("/file.txt", "inside file"), ("/", "index"), ("/sub/inner.txt", "inner")] {
+		for (t, want) in [("/file.txt", "inside file"), ("/", "index"), ("/sub/inner.txt", "inner"), ("/pre.txt", "precompressed inside"), ("/sub/pre2.txt", "precompressed inside")] {
+			if name.starts_with("tar") && t.contains("pre") { continue; }
 			let target = format!("{prefix}{t}");
 			match raw_get(srv.port, &target, &[]) {
 				Some(r) if r.status == 200 && String::from_utf8_lossy(&r.body).contains(want) => {}
@@ -255,7 +264,8 @@ pub fn run_c07(ctx: &Ctx) -> Result<()> {
 		}
 		// hand-picked and generated escape attempts
 		let mut targets: Vec<String> = vec!["/../secret.txt", "/sub/../../secret.txt", "/./../secret.txt", "//../secret.txt", "/%2e%2e/secret.txt", "/..%2fsecret.txt", "/../www-private/secret.txt",
-			"/sub/../../www-private/secret.txt", "/../../../../../../etc/hostname", "/..", "/../", "/sub/..", "/.../secret.txt", "/..\\secret.txt"].iter().map(|s| s.to_string()).collect();
+			"/sub/../../www-private/secret.txt", "/../../../../../../etc/hostname", "/..", "/../", "/sub/..", "/.../secret.txt", "/..\\secret.txt",
+			"/../keys.json", "/../keys2.json", "/sub/../../keys.json", "/../www-private/only.txt", "/../index.html", "/sub/../..", "/sub/../../", "/./../keys2.json", "/%2e%2e/keys.json", "/../keys.json.br"].iter().map(|s| s.to_string()).collect();
 		for extra in ["//", "///", "////"] { targets.push(format!("{extra}{abs}/secret.txt")); targets.push(format!("{extra}{abs}/www-private/secret.txt")); targets.push(format!("/sub{extra}{abs}/secret.txt")); }
 		let n = if ctx.thorough { 12000 } else { 1500 };
 		for _ in 0..n {
@@ -275,12 +285,12 @@ pub fn run_c07(ctx: &Ctx) -> Result<()> {
 						// a regular file followed by further segments ("file.txt/.") is an OS matter (ENOTDIR), not modelled
 						let file_then_more = ["file.txt/", "inner.txt/", "secret.txt/", "index.html/"].iter().any(|f| target.contains(f));
 						if name == "folder" && pre.is_empty() && !target.contains(' ') && !target.starts_with("//") && !file_then_more {
-							let which = if r.status != 200 { "none" } else if body.contains(canary_out) { "file:../secret.txt" } else if body.contains(canary_sib) { "file:../www-private/secret.txt" }
+							let which = if r.status != 200 { "none" } else if body.contains(canary_out) { "file:../secret.txt" } else if body.contains(canary_sib) { "file:../www-private/secret.txt" } else if body.contains(canary_pre) { "file:outside-precompressed" }
 								else if body.contains("root index") { "file:index.html" } else if body.contains("sub index") { "file:sub/index.html" }
 								else if body.contains("inside file") { "file:file.txt" } else if body.contains("inner file") { "file:sub/inner.txt" } else { "?" };
 							col.out.line(&format!("static {} {target} => {which}", root.to_str().unwrap()));
 						}
-						if body.contains(canary_out) || body.contains(canary_sib) {
+						if body.contains(canary_out) || body.contains(canary_sib) || body.contains(canary_pre) {
 							col.violation("escaped-root", &format!("{name}: GET {target}"), &format!("static {name} {target}"), &format!("status {} returned a file outside the configured root", r.status));
 						}
 					}
